@@ -3,16 +3,24 @@
 import json, os, glob, re
 ROOT = os.path.dirname(os.path.dirname(os.path.abspath(__file__)))
 rows = []
+try:
+    WHAT = json.load(open(os.path.join(ROOT, "seeded", "what.json")))
+except Exception:
+    WHAT = {}
+try:
+    ST = json.load(open(os.path.join(ROOT, "seeded", "strengthened.json")))
+except Exception:
+    ST = {}
 for d in sorted(glob.glob(os.path.join(ROOT, "seeded", "*"))):
     mp = os.path.join(d, "meta.json")
     if not os.path.exists(mp):
         continue
     m = json.load(open(mp))
-    what = m.get("what", "")
+    what = m.get("what", "") or WHAT.get(os.path.basename(d), "")
     prop = m["property"]
     det = m.get("detected_by", {}).get(prop, {})
     sigs = ", ".join("`%s`" % s[:70] for s in det.get("sigs", [])[:2])
-    rows.append("| %s | %s | %s | %s | %s |" % (os.path.basename(d), prop, what, "exit %s" % det.get("exit"), sigs))
-print("| seed | property | change and what it needs to manifest | quick check | first signatures |")
-print("|---|---|---|---|---|")
+    rows.append("| %s | %s | %s | %s | %s | %s |" % (os.path.basename(d), prop, what, "exit %s" % det.get("exit"), sigs, ST.get(os.path.basename(d), "caught as built")))
+print("| seed | property | change and what it needs to manifest | quick check now | first signatures | history |")
+print("|---|---|---|---|---|---|")
 print("\n".join(rows))
